@@ -87,8 +87,20 @@ def ffragC (checks : Bool) (text frag : List Nat) : Chk (Option (List Nat)) := d
     let t ← fstoreAllC "text/buf/array.rs:97 self.buf[self.len] = digit" text frag
     .ok (some t)
 
-/-- `parse_ascii` in num.rs:401 up to the text handed to `str::parse`.  The exponent's `Display` writes the sign (if any)
-    and the digits as separate `write_str` calls. -/
+/-- the exponent part of `parse_ascii` (num.rs:424–426): `checked_begin_exponent()`, then the exponent's `Display`
+    through `parse_fmt` — the sign (if any) and the digits arrive as separate `write_str` calls -/
+def floatExpC (checks : Bool) (t : List Nat) (exponent : Int) : Chk (Option (List Nat)) := do
+  let t ← fpushC checks "text/buf/array.rs:86 self.buf[self.len] = b'e'" t 101
+  match t with
+  | none => .ok none
+  | some t => do
+    let t ← (if exponent < 0 then ffragC checks t [45] else .ok (some t))
+    match t with
+    | none => .ok none
+    | some t => ffragC checks t ((Nat.toDigits 10 exponent.natAbs).map Char.toNat)
+
+/-- `parse_ascii` in num.rs:401 up to the text handed to `str::parse`, on digits that are already there (the hook
+    `x_float_from_ascii`; `toFloatC` uses `floatTextLazyC`, the same function on the digit stream). -/
 def floatTextC (checks : Bool) (neg : Bool) (digits : List Nat) (exponent : Int) : Chk (Option (List Nat)) := do
   let t ← (if neg then fpushC checks "text/buf/array.rs:72 self.buf[self.len] = b'-'" [] 45 else .ok (some []))
   match t with
@@ -98,27 +110,69 @@ def floatTextC (checks : Bool) (neg : Bool) (digits : List Nat) (exponent : Int)
     let t ← fpushAllC checks "text/buf/array.rs:52 self.buf[self.len] = digit" t (if sig.isEmpty then [48] else sig)
     match t with
     | none => .ok none
-    | some t => do
-      let t ← fpushC checks "text/buf/array.rs:86 self.buf[self.len] = b'e'" t 101
-      match t with
-      | none => .ok none
-      | some t => do
-        let t ← (if exponent < 0 then ffragC checks t [45] else .ok (some t))
+    | some t => floatExpC checks t exponent
+
+/-- the first call of `SkipWhile::next` in `digits.skip_while(|d| *d == b'0')` (num.rs:417): pulls until a digit that is
+    not `'0'` arrives (returned with the stream behind it) or the stream ends -/
+def skipZerosC (checks : Bool) (b : Buf) : Nat → Digits → Chk (Option (Nat × Digits))
+  | 0, _ => .ok none
+  | n + 1, it =>
+    match it.nextC checks b with
+    | .error e => .error e
+    | .ok none => .ok none
+    | .ok (some (d, it')) => if d == 48 then skipZerosC checks b n it' else .ok (some (d, it'))
+
+/-- the rest of `for digit in digits.skip_while(..) { parser.checked_push_significand_digit(digit).ok()?; .. }`
+    (num.rs:417–420): a digit is pulled, then pushed; when the scratch buffer is full the push fails, `parse_ascii` returns
+    `None`, and nothing more is pulled -/
+def pushDigitsC (checks : Bool) (b : Buf) (site : String) : Nat → Digits → List Nat → Chk (Option (List Nat))
+  | 0, _, text => .ok (some text)
+  | n + 1, it, text =>
+    match it.nextC checks b with
+    | .error e => .error e
+    | .ok none => .ok (some text)
+    | .ok (some (d, it')) =>
+      match fpushC checks site text d with
+      | .error e => .error e
+      | .ok none => .ok none
+      | .ok (some t) => pushDigitsC checks b site n it' t
+
+/-- `parse_ascii` (num.rs:401) on the digit stream of a decimal, up to the text handed to `str::parse` -/
+def floatTextLazyC (checks : Bool) (b : Buf) (neg : Bool) (it : Digits) (exponent : Int) : Chk (Option (List Nat)) := do
+  let t ← (if neg then fpushC checks "text/buf/array.rs:72 self.buf[self.len] = b'-'" [] 45 else .ok (some []))
+  match t with
+  | none => .ok none
+  | some t => do
+    let first ← skipZerosC checks b (it.bound + 1) it
+    let t ← (match first with
+      -- `if written == 0 { parser.checked_push_significand_digit(b'0').ok()?; }`
+      | none => fpushC checks "text/buf/array.rs:52 self.buf[self.len] = digit" t 48
+      | some (d, it') => do
+        let t ← fpushC checks "text/buf/array.rs:52 self.buf[self.len] = digit" t d
         match t with
         | none => .ok none
-        | some t => ffragC checks t ((Nat.toDigits 10 exponent.natAbs).map Char.toNat)
+        | some t => pushDigitsC checks b "text/buf/array.rs:52 self.buf[self.len] = digit" (it'.bound + 1) it' t)
+    match t with
+    | none => .ok none
+    | some t => floatExpC checks t exponent
 
-/-- `decimal_to_binary_float` (from_binary_float.rs:35).  Sites: classifiers and decoders, the scratch buffer,
+/-- `Float::nan` (num.rs:325–341) on the payload `try_from_ascii(..).unwrap_or_else(zero)` delivered -/
+def toFloatNanOf (B : Spec.BinFmt) (neg : Bool) (payload : Int) : Nat :=
+  let bits := if payload = 0 then quietNanBits B else quietNanBits B ||| (payload.toNat % 2 ^ B.width &&& nanPayloadMask B)
+  (if neg then B.signMask else 0) + bits
+
+/-- `decimal_to_binary_float` (from_binary_float.rs:35), in the order the Rust code evaluates it.  Sites: classifiers and
+    `decode_combination_finite`, the digit stream as far as `parse_ascii` / `try_from_ascii` pull it, the scratch buffer,
     from_binary_float.rs:65 `debug_assert!(is_nan(decimal))`, the `(b - b'0')` of the payload conversion.
     `str::parse::<f32/f64>` does not panic. -/
 def toFloatC (T : Ty) (checks : Bool) (b : Buf) (B : Spec.BinFmt) : Chk (Option Nat) := do
   let fin ← isFiniteC checks b
-  let neg ← isSignNegativeC checks b
   if fin then do
     let em ← decodeCombinationFiniteC T.expRep checks b
+    let tb ← trailingBitsC checks b
+    let neg ← isSignNegativeC checks b
     let msdA ← bcdToAsciiC checks em.2
-    let declets ← decodeDecletsC checks b
-    let t ← floatTextC checks neg (msdA :: declets.flatten) em.1
+    let t ← floatTextLazyC checks b neg (Digits.start [msdA] tb) em.1
     .ok (match t with
       | none => none
       | some text =>
@@ -127,14 +181,20 @@ def toFloatC (T : Ty) (checks : Bool) (b : Buf) (B : Spec.BinFmt) : Chk (Option 
         | none => none)
   else do
     let inf ← isInfiniteC checks b
-    if inf then .ok (some ((if neg then B.signMask else 0) + B.infBits))
+    if inf then do
+      let neg ← isSignNegativeC checks b
+      .ok (some ((if neg then B.signMask else 0) + B.infBits))
     else do
       let isn ← isNanC checks b
       dbg checks "convert/from_binary_float.rs:65 debug_assert!(is_nan(decimal))" (isn = true)
-      let declets ← decodeDecletsC checks b
-      let _ ← intFromAsciiC checks ⟨true, B.width⟩ false declets.flatten 0
+      let tb ← trailingBitsC checks b
+      -- `F::NanPayload::try_from_ascii(false, payload.flatten()).unwrap_or_else(F::NanPayload::zero)`: stops at the
+      -- first overflow of the `i32` / `i64` payload
+      let it := Digits.start [] tb
+      let r ← tryFromDigitsC checks b ⟨true, B.width⟩ false (it.bound + 1) it
+      let neg ← isSignNegativeC checks b
       let _ ← isSignalingNanC checks b
-      .ok (some (toFloatNan B neg declets.flatten))
+      .ok (some (toFloatNanOf B neg (r.1.getD 0)))
 
 /-- `d2f!` (bitstring.rs:269): `Bitstring32::to_f64` is `decimal_to_binary_float(..).expect("infallible conversion")` -/
 def toFloatInfallibleC (T : Ty) (checks : Bool) (b : Buf) (B : Spec.BinFmt) : Chk Nat := do
